@@ -72,6 +72,25 @@ def saturation_items(props):
             for fl in FLAVOURS for pol in ('LFU', 'ARC', 'TLRU') for n in (1, 2) for op in ('get', 'insert')]
 
 
+def extreme_items(props, tier):
+    """configuration values at the top of their type (C16: "for every combination of ... limit, ttl, max_memory"): a ttl of 2^62..u64::MAX
+    seconds on caches that do evict, and limit / max_memory of usize::MAX"""
+    out = []
+    for fl in FLAVOURS:
+        for pol in POLICIES:
+            for n in ((1, 2) if tier == 'quick' else (1, 2, 3)):
+                out.append(dict(kind='step', flavour=fl, policy=pol, limit=True, ttl=True, mem=False, fw=None, n=n, op='insert', extreme='ttl', props=list(props)))
+                out.append(dict(kind='step', flavour=fl, policy=pol, limit=True, ttl=True, mem=False, fw=None, n=n, op='get', extreme='ttl', props=list(props)))
+                if n <= 2: out.append(dict(kind='step', flavour=fl, policy=pol, limit=False, ttl=True, mem=True, fw=None, n=n, op='insert_with_memory', extreme='ttl', props=list(props)))
+            for n in (0, 2):
+                out.append(dict(kind='step', flavour=fl, policy=pol, limit=True, ttl=False, mem=False, fw=None, n=n, op='insert', extreme='limit', props=list(props)))
+                out.append(dict(kind='step', flavour=fl, policy=pol, limit=True, ttl=False, mem=True, fw=None, n=n, op='insert_with_memory', extreme='mem', props=list(props)))
+        for fw in (0.0, 1000000.0):
+            for op in ('insert', 'insert_with_memory'):
+                out.append(dict(kind='step', flavour=fl, policy='TLRU', limit=(op == 'insert'), ttl=True, mem=(op != 'insert'), fw=fw, n=2, op=op, props=list(props)))
+    return out
+
+
 def wrap_items(props, tier, pred=None, patterns=('same',), second=(False,)):
     from .wrap import subjects
     out = []
@@ -254,7 +273,7 @@ def items_for(prop, tier):
         c = conc_items(['C15'], tier, want=lambda pn, it: pn in ('same|same', 'call|call', 'fill|inv_with', 'fill|inv_cache'))
         for x in c: x['atomics'] = True
         return step_items(['C15'], tier, flavours=['G', 'A'], ops=('get',)) + c + stats_items(['C15'], tier)
-    if p == 'C16': return step_items(['C16'], tier) + saturation_items(['C16']) + extra_step_items(['C16'], tier) + wrap_items(['C16'], tier, pred=lambda r: r['group'] in ('cfg', 'mem', 'res', 'cif', 'inv', 'method', 'sig')) + [x for x in inv_items(['C16'], tier) if x['mode'] != 'group' or x['name'] in ('t1', 'custom_g')]
+    if p == 'C16': return step_items(['C16'], tier) + saturation_items(['C16']) + extreme_items(['C16'], tier) + extra_step_items(['C16'], tier) + wrap_items(['C16'], tier, pred=lambda r: r['group'] in ('cfg', 'mem', 'res', 'cif', 'inv', 'method', 'sig')) + [x for x in inv_items(['C16'], tier) if x['mode'] != 'group' or x['name'] in ('t1', 'custom_g')]
     if p == 'C09': return inv_step_items('C09', tier) + extra_step_items(['C09'], tier) + wrap_items(['C09'], tier, pred=lambda r: r['intended']['result'], second=(False, True))
     if p == 'C10': return inv_step_items('C10', tier) + wrap_items(['C10'], tier, pred=lambda r: r['intended']['cache_if'] or r['group'] in ('plain', 'res'), second=(False,))
     if p == 'C11': return inv_step_items('C11', tier) + wrap_items(['C11'], tier, pred=lambda r: r['intended']['invalidate_on'] or r['group'] in ('plain',), second=(False, True))
